@@ -22,7 +22,7 @@ non-trivial = at least 3 exchanges including a state change other than the first
 #[derive(Clone, Debug, Hash, PartialEq, Eq, Serialize, Deserialize)]
 pub enum Beh {
     Challenge { algs: u8, anon: bool, cookie: bool, realm: u8, nonce: u8 },
-    Stale { nonce: u8, with_integrity: bool },
+    Stale { nonce: u8, with_integrity: bool, #[serde(default)] other_algs: bool },
     /// what an RFC server does: authenticated success if the request is acceptable, else the RFC's error
     Natural,
     SuccessUnauth,
@@ -276,10 +276,16 @@ pub fn check_script(s: &Script, ctx: &Ctx, st: &mut Stats) -> Result<(), String>
             Beh::UnsupportedAlgs => mk(Body::Lt401 { algs: 4, anon: false, cookie: true, realm: 0, nonce: 1, drop_realm: false, drop_nonce: false }, Auth::None),
             Beh::MissingRealm => mk(Body::Lt401 { algs: 0, anon: false, cookie: false, realm: 0, nonce: 1, drop_realm: true, drop_nonce: false }, Auth::None),
             Beh::MissingNonce => mk(Body::Lt401 { algs: 0, anon: false, cookie: false, realm: 0, nonce: 1, drop_realm: false, drop_nonce: true }, Auth::None),
-            Beh::Stale { nonce, with_integrity } => mk(
-                Body::Lt438 { nonce: *nonce, drop_nonce: false },
-                if *with_integrity && acceptable { Auth::ValidExpected } else { Auth::None },
-            ),
+            Beh::Stale { nonce, with_integrity, other_algs } => {
+                let mut r = mk(
+                    Body::Lt438 { nonce: *nonce, drop_nonce: false },
+                    if *with_integrity && acceptable { Auth::ValidExpected } else { Auth::None },
+                );
+                if *other_algs {
+                    r.twist = 16;
+                }
+                r
+            }
             Beh::Natural => {
                 if acceptable {
                     mk(Body::Success, Auth::ValidExpected)
@@ -326,6 +332,10 @@ pub fn check_script(s: &Script, ctx: &Ctx, st: &mut Stats) -> Result<(), String>
         if let Body::Lt438 { drop_nonce: false, .. } = &reply.body {
             if srv.challenged {
                 srv.nonce = facts.nonce.clone().unwrap_or_default();
+                if reply.twist & 16 != 0 {
+                    // a 438 that changes the offered list is not something an RFC server does: acceptance is no longer asserted
+                    srv.conforming = false;
+                }
             }
         }
         if sim.lt_sess != sess_before || sim.lt_state != state_before {
@@ -357,7 +367,7 @@ pub fn check_script(s: &Script, ctx: &Ctx, st: &mut Stats) -> Result<(), String>
 fn beh_name(b: &Beh) -> String {
     match b {
         Beh::Challenge { algs, anon, cookie, .. } => format!("401(algs={},anon={},cookie={})", algs, anon, cookie),
-        Beh::Stale { with_integrity, .. } => format!("438(integrity={})", with_integrity),
+        Beh::Stale { with_integrity, other_algs, .. } => format!("438(integrity={},other-algs={})", with_integrity, other_algs),
         Beh::OtherError { auth, .. } => format!("other-error(auth={})", auth),
         o => format!("{:?}", o),
     }
@@ -366,7 +376,7 @@ fn beh_name(b: &Beh) -> String {
 pub fn arb_beh() -> BoxedStrategy<Beh> {
     prop_oneof![
         5 => (0u8..8, any::<bool>(), any::<bool>(), 0u8..4, 0u8..6).prop_map(|(algs, anon, cookie, realm, nonce)| Beh::Challenge { algs, anon, cookie, realm, nonce }),
-        3 => (0u8..6, any::<bool>()).prop_map(|(nonce, with_integrity)| Beh::Stale { nonce, with_integrity }),
+        3 => (0u8..6, any::<bool>(), prop_oneof![3 => Just(false), 1 => Just(true)]).prop_map(|(nonce, with_integrity, other_algs)| Beh::Stale { nonce, with_integrity, other_algs }),
         8 => Just(Beh::Natural),
         1 => Just(Beh::SuccessUnauth),
         1 => Just(Beh::SuccessWrongKey),
